@@ -127,8 +127,18 @@ def gen_case(rng):
         out[j] = dict(out[i])
         if rng.random() < 0.3 and len(out) >= 3:
             out[rng.randrange(len(out))] = dict(out[i])
+    fmmu = None
+    if sterile and rng.random() < 0.4:
+        # the FMMU datagrams of a sync group (LRD for the inputs, LWR for
+        # the outputs) appended somewhere in the sequence
+        fmmu = dict(at=rng.randint(0, len(out)),
+                    isz=rng.choice([0, 0, 2, 6, 40, rng.randint(1, 300)]),
+                    osz=rng.choice([0, 0, 2, 4, 30, rng.randint(1, 300)]),
+                    ic=rng.randint(0, 5), oc=rng.randint(0, 5),
+                    logical=rng.choice([0x1000, 0x2000, 0x400000,
+                                        rng.randrange(0, 2 ** 31 - 0x1000)]))
     return dict(sterile=sterile, dgs=out, index=rng.getrandbits(31),
-                ethertype=rng.choice([0x88A4, 0x3000, 0x5fff]))
+                ethertype=rng.choice([0x88A4, 0x3000, 0x5fff]), fmmu=fmmu)
 
 
 def sterile_of(p, case, index=0, ethertype=0x88A4):
@@ -146,7 +156,32 @@ def check_case(case, res):
     p = P()
     accepted = []
     writers = []
-    for d in case["dgs"]:
+    fm = case.get("fmmu")
+
+    def add_fmmu():
+        need = sum(sz + HDR + TAIL for sz in (fm["isz"], fm["osz"]) if sz)
+        nd = sum(1 for sz in (fm["isz"], fm["osz"]) if sz)
+        if p.size + need > Packet.MAXSIZE or len(accepted) + nd > 15:
+            res.count("fmmu_datagrams_skipped_no_room")
+            return
+        p.fmmu_in_size, p.fmmu_out_size = fm["isz"], fm["osz"]
+        p.fmmu_in_count, p.fmmu_out_count = fm["ic"], fm["oc"]
+        ipos, opos, ilog, olog = p.append_fmmu(fm["logical"])
+        res.count("append_fmmu_calls")
+        if fm["isz"]:
+            accepted.append((dict(cmd=ECCmd.LRD.value, idx=0, addr=[ilog],
+                                  len=fm["isz"], wkc=fm["ic"]),
+                             bytes(fm["isz"]),
+                             (ipos + HDR, ipos + HDR + fm["isz"])))
+        if fm["osz"]:
+            accepted.append((dict(cmd=ECCmd.LWR.value, idx=0, addr=[olog],
+                                  len=fm["osz"], wkc=fm["oc"]),
+                             bytes(fm["osz"]),
+                             (opos + HDR, opos + HDR + fm["osz"])))
+            writers.append(len(accepted) - 1)
+    for nd_, d in enumerate(case["dgs"]):
+        if fm and fm["at"] == nd_:
+            add_fmmu()
         data = bytes((d["seed"] + i) & 0xff for i in range(d["len"]))
         before = (p.size, len(p.data), p.assemble(0, 0x88A4),
                   sterile_of(p, case))
@@ -199,6 +234,8 @@ def check_case(case, res):
         accepted.append((d, data, ret))
         if case["sterile"] and d["writer"]:
             writers.append(len(accepted) - 1)
+    if fm and fm["at"] >= len(case["dgs"]):
+        add_fmmu()
     res.case(case, nontrivial=bool(accepted))
     if not accepted:
         return
@@ -283,7 +320,16 @@ def run_shard(params):
     res = Result()
     rng = random.Random(params["seed"] * 100193 + params["shard"])
     for i in range(params["n"]):
-        check_case(gen_case(rng), res)
+        case = gen_case(rng)
+        try:
+            check_case(case, res)
+        except (struct.error, ValueError, IndexError, TypeError,
+                OverflowError) as ex:
+            # every datagram of a case was accepted by append(): assembling
+            # must not fail afterwards
+            res.violation("unexplained:assemble-raised",
+                          f"assembling a packet of accepted datagrams "
+                          f"raised {type(ex).__name__}: {ex}", case=case)
     res.count("icontract_postcondition_evaluations", CONTRACT["evaluations"])
     res.info["icontract_available"] = icontract is not None
     return res
